@@ -2,7 +2,7 @@
    list, prod, unit, sumbool map to OCaml natives; N/Z/positive/byte stay Coq datatypes. *)
 From Coq Require Import Extraction ExtrOcamlBasic.
 From ChitchatModel Require Import Base SMap Ids Params Bytes NodeState Stream DeltaWire Message
-  Cluster FD Chitchat World Monitors Listener Select.
+  Cluster FD Chitchat World Monitors Listener Select Loop.
 Extraction Language OCaml.
 Extraction "model.ml"
   Byte.of_N Byte.to_N N.add N.mul N.div_eucl N.compare Z.add Z.mul Z.opp Z.compare Z.div_eucl
@@ -19,5 +19,6 @@ Extraction "model.ml"
   Monitors.digest_excludes Monitors.c12_sets_ok Monitors.c12_after_eval_ok Monitors.c13_watch_ok
   Monitors.c20_ok Monitors.kvs_eqb Monitors.ledger_max Monitors.any_reset
   Listener.subscribe Listener.unsubscribe Listener.trigger_event Listener.expected_calls
+  Loop.step Loop.ls_init Loop.discipline
   Select.select_nodes_for_gossip Select.oracle_valid
   Chitchat.eval_pred NodeState.check_delta_status NodeState.to_mstatus.
